@@ -93,6 +93,9 @@ pub struct EmuStats {
     pub heap_walks: u64,
     pub blocks_walked: u64,
     pub ext_calls: u64,
+    /// print statements whose whole context was compared with the context at the next marker
+    pub print_contexts_compared: u64,
+    pub print_context_variables_compared: u64,
     pub spill_accesses: u64,
     pub heap_accesses: u64,
     pub max_frontier_blocks: u64,
